@@ -74,6 +74,7 @@ def run(ctx: Ctx):
     ctx.section(c09.check_extension_ops, ctx, repo.cls("types.qtype.Qtype"))
     ctx.section(check_pipeline, ctx)
     ctx.section(check_const_table, ctx)
+    ctx.section(check_mod_mask, ctx)
 
 
 # ------------------------------------------------------------------------------------- DP-CLOSED
@@ -1242,3 +1243,23 @@ def check_ripple(ctx: Ctx, add: FuncInfo):
     ctx.check(len(init) == 1 and norm(init[0].value) in ("False", "false"), "RW-IDIOM", add, "carry into bit 0 is false", norm(init[0]) if init else "", f"the initial carry is `{norm(init[0].value) if init else '?'}`", init[0] if init else l)
     app = [c for c in q.method_calls(l, "append") if len(c.args) == 1 and norm(c.args[0]) == s_out]
     ctx.check(len(app) == 1, "RW-IDIOM", add, "sum bit k is appended as result bit k", norm(app[0]) if app else "", f"the sum bit `{s_out}` is not appended to the result once per step", l)
+
+
+def check_mod_mask(ctx: Ctx):
+    """SB-MODPOW2: `x % y` implemented as `x & (y - 1)` is x mod y only for y = 2**n.  Every path to the masking
+    must have established that (a dominating check on the value of y), or reject."""
+    fi = ctx.repo.func("types.qint.QintImp.mod")
+    ands = [c for c in q.calls(fi.node) if isinstance(c.func, ast.Attribute) and c.func.attr == "bitwise_and"]
+    subs = [c for c in q.calls(fi.node) if isinstance(c.func, ast.Attribute) and c.func.attr == "sub" and len(c.args) == 2 and pat.t(c.args[1]).endswith("const(1)")]
+    if len(ands) != 1 or len(subs) != 1:
+        ctx.undecided(fi.short, "modulo is no longer implemented as x & (y - 1): outside the tables")
+        return
+    y = pat.t(subs[0].args[0])
+    facts = [(pat.t(e), pol) for e, pol in guard_facts(fi, ands[0])]
+    # the power-of-two test may sit under `if is_const(y):` - then only the constant path is guarded
+    pow2 = [n for n in ast.walk(fi.node) if isinstance(n, ast.If) and any(isinstance(x, ast.BinOp) and isinstance(x.op, ast.BitAnd) for x in ast.walk(n.test)) and any(isinstance(s_, ast.Raise) for s_ in n.body)]
+    const_guard = [(pat.t(e), pol) for n in pow2 for e, pol in guard_facts(fi, n)]
+    ctx.check(bool(pow2), "SB-MODPOW2", fi, "constant modulus: powers of two only", "a constant y with y & (y - 1) != 0 is rejected", f"`{norm(ands[0])[:60]}` computes x & (y - 1) for any modulus: `a % 3` is accepted and translated to `a & 2`", ands[0], construct=fi.short + "#const")
+    only_const = any(pol and "is_const" in f for f, pol in const_guard)
+    nonconst_rejected = any((not pol) and "is_const" in f for f, pol in facts) is False and any(pol and "is_const" in f for f, pol in facts)
+    ctx.check(bool(pow2) and (not only_const or nonconst_rejected), "SB-MODPOW2", fi, "non-constant modulus: rejected or shown to be a power of two", "", f"when {y} is not a compile-time constant the mask identity is applied unchecked: `a % b` is translated to `a & (b - 1)`, which is a mod b only for b = 2**n (a=5, b=3 gives 0 instead of 2); the test-suite relies on `b = 4; a % b`, so the variable case cannot simply be rejected", ands[0], construct=fi.short + "#nonconst")
